@@ -209,6 +209,8 @@ def scan_surface(text, ident):
         if depth == 0 and len(body) > 1:
             break
     pub, priv, impls = [], [], []
+    uses = []
+    depth_before = 1
     skip_depth = None       # inside a private nested module: nothing in there is reachable from outside
     depth = 1
     for l in body[1:]:
@@ -217,11 +219,14 @@ def scan_surface(text, ident):
             skip_depth = depth
             depth += bare.count("{") - bare.count("}")
             continue
+        depth_before = depth
         depth += bare.count("{") - bare.count("}")
         if skip_depth is not None:
             if depth <= skip_depth:
                 skip_depth = None
             continue
+        if depth_before == 1 and re.match(r"^\s*(pub(\([^)]*\))?\s+)?(use|extern\s+crate|macro_rules!)\b", bare) and "enum_tools::EnumTools" not in l:
+            uses.append(l.strip())
         mi = IMPL_RE.match(l)
         if mi and l.lstrip().startswith(("impl", "unsafe impl")):
             impls.append((mi.group(1).strip(), mi.group(2).strip()))
@@ -235,6 +240,7 @@ def scan_surface(text, ident):
             if v in ("pub(self)", "pub(inself)"):
                 v = ""                      # equivalent to private
             (pub if v else priv).append((vis.strip() if v else "", kind, name))
+    scan_surface.last_uses = uses
     return pub, impls, priv
 
 
@@ -352,6 +358,9 @@ def run_case(case):
     if not ex.ok:
         raise build.InfraError("expansion failed: " + J.short_err(ex.stderr))
     pub, impls, priv = scan_surface(build.expanded_text(ex), ident)
+    for u in getattr(scan_surface, "last_uses", []):
+        out.violate("the derive adds a module-level import / macro to the user's module (nothing else may be added to the surface)",
+                    item=u, config=J.cfg_text(cfg))
     exp_items, exp_impls = expected_surface(spec, cfg)
     # a struct and an associated fn / const may share a name (different namespaces): key by (class, name)
     klass = lambda kind: "struct" if kind == "struct" else "assoc"
